@@ -639,147 +639,6 @@ theorem compile_total_call {self h : String} {args : List Expr} (hh : (h != "") 
   · rw [if_neg hc]
     exact ⟨_, gs, rfl, by simp, KeepFns.refl _⟩
 
-mutual
-theorem compile_total_Fz : ∀ (self : String) (e : Expr), Fz self e = true → ∀ isFn c gs, FnameOk self c →
-    ∃ code t gs', (compile isFn c e).run gs = .ok ((code, t), gs') ∧ code ≠ [] ∧ KeepFns gs gs'
-  | self, .call f args, he, isFn, c, gs, hfn => by
-    cases f with
-    | sym h =>
-      rw [Fz] at he
-      simp only [Bool.and_eq_true, Bool.or_eq_true] at he
-      obtain ⟨code, g1, h1, h2, h3⟩ := compile_total_call he.1.1.1 he.1.1.2 he.2 isFn c gs hfn
-      exact ⟨code, _, g1, h1, h2, h3⟩
-    | _ => simp [Fz] at he
-  | self, .begin_ es, he, isFn, c, gs, hfn => by
-    rw [Fz] at he
-    cases es with
-    | nil => exact ⟨[.push .nil], c.tail, gs, by rw [compile]; rfl, by simp, KeepFns.refl _⟩
-    | cons e0 es0 =>
-      rw [compile]
-      · exact compileBegin_total_Fz self (e0 :: es0) (by simp) he isFn c gs hfn
-      · intro hh; cases hh
-  | self, .cond arms d, he, isFn, c, gs, hfn => by
-    rw [Fz] at he
-    simp only [Bool.and_eq_true] at he
-    obtain ⟨dc, t, g1, hd, hdne, hf1⟩ := compile_total_Fz self d he.2 isFn c gs hfn
-    obtain ⟨as, g2, has, hf2⟩ := compileArms_total_Fz self arms he.1 isFn c g1 hfn
-    refine ⟨asmCond as dc, c.tail, g2, ?_, asmCond_ne_nil as dc hdne, hf1.trans hf2⟩
-    rw [compile]
-    simp only [g_bind_ok, g_pure_ok]
-    exact ⟨_, _, hd, _, _, has, rfl⟩
-  | self, .let_ seq bs body, he, isFn, c, gs, hfn => by
-    rw [Fz] at he
-    simp only [Bool.and_eq_true, Bool.not_eq_true', List.isEmpty_eq_false_iff] at he
-    obtain ⟨⟨⟨_, hbody⟩, hbs⟩, hbl⟩ := he
-    have hfn' : FnameOk self { c with scopes := c.scopes + 1, tail := false } := hfn
-    obtain ⟨rhs, t1, g1, h1, hf1⟩ := compileBinds_total_Ff true self bs hbs isFn { c with scopes := c.scopes + 1, tail := false } seq gs hfn'
-    obtain ⟨b, t2, g2, h2, _, hf2⟩ := compileBegin_total_Fz self body hbody hbl isFn { c with scopes := c.scopes + 1 } g1 hfn
-    refine ⟨[.addScope] ++ rhs ++ (if seq then [] else (bs.map (fun p => Instr.popStackPutEnv p.1)).reverse)
-      ++ b ++ [.removeScope], t2, g2, ?_, by simp, hf1.1.trans hf2⟩
-    rw [compile]
-    simp only [g_bind_ok, g_pure_ok]
-    exact ⟨_, _, h1, _, _, h2, rfl⟩
-  | self, .newScope es, he, isFn, c, gs, hfn => by
-    rw [Fz] at he
-    simp only [Bool.and_eq_true, Bool.not_eq_true', List.isEmpty_eq_false_iff] at he
-    obtain ⟨code, t, g1, h1, _, hf1⟩ := compileNewScope_total_Fz self es he.1 he.2 isFn { c with scopes := c.scopes + 1 }
-      c.tail gs hfn
-    refine ⟨[.addScope] ++ code ++ [.removeScope], t, g1, ?_, by simp, hf1⟩
-    cases es with
-    | nil => exact absurd rfl he.1
-    | cons e es =>
-      rw [compile]
-      · simp only [g_bind_ok, g_pure_ok]
-        exact ⟨_, _, h1, rfl⟩
-      · intro hh; cases hh
-  | self, .int v, he, isFn, c, gs, hfn | self, .bool v, he, isFn, c, gs, hfn
-  | self, .str v, he, isFn, c, gs, hfn | self, .nilLit, he, isFn, c, gs, hfn
-  | self, .sym x, he, isFn, c, gs, hfn | self, .arr es, he, isFn, c, gs, hfn
-  | self, .def_ x e, he, isFn, c, gs, hfn | self, .set_ x e, he, isFn, c, gs, hfn
-  | self, .and_ es, he, isFn, c, gs, hfn | self, .or_ es, he, isFn, c, gs, hfn
-  | self, .for_ _ _ _ _ _, he, isFn, c, gs, hfn | self, .fn _ _ _, he, isFn, c, gs, hfn
-  | self, .defn _ _ _ _, he, isFn, c, gs, hfn => by
-    rw [Fz] at he
-    obtain ⟨code, t, g1, h1, h2, h3⟩ := compile_total_Ff true self _ he isFn c gs hfn
-    exact ⟨code, t, g1, h1, h2, h3.1⟩
-  | self, .assign _ _, he, _, _, _, _ | self, .bad _, he, _, _, _, _
-  | self, .break_ _, he, _, _, _, _ | self, .continue_ _, he, _, _, _, _ => by
-    simp [Fz] at he
-theorem compileBegin_total_Fz : ∀ (self : String) (es : List Expr), es ≠ [] → FzList self es = true →
-    ∀ isFn c gs, FnameOk self c →
-    ∃ code t gs', (compileBegin isFn c es).run gs = .ok ((code, t), gs') ∧ code ≠ [] ∧ KeepFns gs gs'
-  | _, [], hne, _, _, _, _, _ => absurd rfl hne
-  | self, [e], _, he, isFn, c, gs, hfn => by
-    rw [FzList] at he
-    rw [compileBegin]
-    exact compile_total_Fz self e he isFn c gs hfn
-  | self, e :: e' :: es, _, he, isFn, c, gs, hfn => by
-    rw [FzList] at he
-    simp only [Bool.and_eq_true] at he
-    have hfn' : FnameOk self { c with tail := false } := hfn
-    obtain ⟨a, ta, g1, ha, hane, hf1⟩ := compile_total_Ff true self e he.1 isFn { c with tail := false } gs hfn'
-    obtain ⟨b, tb, g2, hb, _, hf2⟩ := compileBegin_total_Fz self (e' :: es) (by simp) he.2 isFn c g1 hfn
-    refine ⟨a ++ (if a.isEmpty then [] else [.pop]) ++ b, tb, g2, ?_, by simp [hane], hf1.1.trans hf2⟩
-    rw [compileBegin]
-    · simp only [g_bind_ok, g_pure_ok]
-      exact ⟨_, _, ha, _, _, hb, rfl⟩
-    · intro hh; cases hh
-theorem compileNewScope_total_Fz : ∀ (self : String) (es : List Expr), es ≠ [] → FzList self es = true →
-    ∀ isFn c oldtail gs, FnameOk self c →
-    ∃ code t gs', (compileNewScope isFn c oldtail es).run gs = .ok ((code, t), gs') ∧ code ≠ [] ∧ KeepFns gs gs'
-  | _, [], hne, _, _, _, _, _, _ => absurd rfl hne
-  | self, [e], _, he, isFn, c, oldtail, gs, hfn => by
-    rw [FzList] at he
-    rw [compileNewScope]
-    exact compile_total_Fz self e he isFn _ gs hfn
-  | self, e :: e' :: es, _, he, isFn, c, oldtail, gs, hfn => by
-    rw [FzList] at he
-    simp only [Bool.and_eq_true] at he
-    have hfn' : FnameOk self { c with tail := false } := hfn
-    obtain ⟨a, ta, g1, ha, hane, hf1⟩ := compile_total_Ff true self e he.1 isFn { c with tail := false } gs hfn'
-    obtain ⟨b, tb, g2, hb, _, hf2⟩ := compileNewScope_total_Fz self (e' :: es) (by simp) he.2 isFn c oldtail g1 hfn
-    refine ⟨a ++ [.pop] ++ b, tb, g2, ?_, by simp, hf1.1.trans hf2⟩
-    rw [compileNewScope]
-    · simp only [g_bind_ok, g_pure_ok]
-      exact ⟨_, _, ha, _, _, hb, rfl⟩
-    · intro hh; cases hh
-theorem compileArms_total_Fz : ∀ (self : String) (arms : List (Expr × Expr)), FzArms self arms = true →
-    ∀ isFn c gs, FnameOk self c →
-    ∃ as gs', (compileArms isFn c arms).run gs = .ok (as, gs') ∧ KeepFns gs gs'
-  | _, [], _, isFn, c, gs, _ => ⟨[], gs, by rw [compileArms]; rfl, KeepFns.refl _⟩
-  | self, (p, b) :: arms, he, isFn, c, gs, hfn => by
-    rw [FzArms] at he
-    simp only [Bool.and_eq_true] at he
-    have hfn' : FnameOk self { c with tail := false } := hfn
-    obtain ⟨r, g1, hr, hf1⟩ := compileArms_total_Fz self arms he.2 isFn c gs hfn
-    obtain ⟨pc, _, g2, hp, _, hf2⟩ := compile_total_Ff true self p he.1.1 isFn { c with tail := false } g1 hfn'
-    obtain ⟨bc, _, g3, hb, _, hf3⟩ := compile_total_Fz self b he.1.2 isFn c g2 hfn
-    refine ⟨(pc, bc) :: r, g3, ?_, (hf1.trans hf2.1).trans hf3⟩
-    rw [compileArms]
-    simp only [g_bind_ok, g_pure_ok]
-    exact ⟨_, _, hr, _, _, hp, _, _, hb, rfl⟩
-end
-
-theorem compile_tot_Fz {self : String} {e : Expr} (he : Fz self e = true) {isFn c gs r} (hfn : FnameOk self c)
-    (h : (compile isFn c e).run gs = .ok r) : r.1.1 ≠ [] ∧ KeepFns gs r.2 := by
-  obtain ⟨code, t, g1, h1, hne, hk⟩ := compile_total_Fz self e he isFn c gs hfn
-  rw [h1] at h; injection h with h; subst h; exact ⟨hne, hk⟩
-
-theorem compileBegin_tot_Fz {self : String} {es : List Expr} (hne : es ≠ []) (he : FzList self es = true) {isFn c gs r}
-    (hfn : FnameOk self c) (h : (compileBegin isFn c es).run gs = .ok r) : KeepFns gs r.2 := by
-  obtain ⟨code, t, g1, h1, _, hk⟩ := compileBegin_total_Fz self es hne he isFn c gs hfn
-  rw [h1] at h; injection h with h; subst h; exact hk
-
-theorem compileNewScope_tot_Fz {self : String} {es : List Expr} (hne : es ≠ []) (he : FzList self es = true)
-    {isFn c oldtail gs r} (hfn : FnameOk self c) (h : (compileNewScope isFn c oldtail es).run gs = .ok r) : KeepFns gs r.2 := by
-  obtain ⟨code, t, g1, h1, _, hk⟩ := compileNewScope_total_Fz self es hne he isFn c oldtail gs hfn
-  rw [h1] at h; injection h with h; subst h; exact hk
-
-theorem compileArms_tot_Fz {self : String} {arms : List (Expr × Expr)} (he : FzArms self arms = true) {isFn c gs r}
-    (hfn : FnameOk self c) (h : (compileArms isFn c arms).run gs = .ok r) : KeepFns gs r.2 := by
-  obtain ⟨as, g1, h1, hk⟩ := compileArms_total_Fz self arms he isFn c gs hfn
-  rw [h1] at h; injection h with h; subst h; exact hk
-
 /-! ## What the generator knows about the function being compiled -/
 
 theorem knownOk_bodyCtx (isFn : Nat → Bool) (c : Ctx) (gs : GS) (name : String) (ps : List String) (body : List Expr) :
